@@ -21,7 +21,7 @@ Import ListNotations.
 Open Scope N_scope.
 
 Inductive opkind := OStart | ORewrite | OTrunc | ORename | OK8s | OLink | ODelete | OReload | ODir | ORmParent
-                  | ORewriteM | ORewrite2 | OOverflow.
+                  | ORewriteM | ORewrite2 | OOverflow | OTRename.
 
 Record qstep := mkStep {
   q_op : opkind;
@@ -153,7 +153,7 @@ Definition transient_notexist (cfg : path) (st : lstate) : lstate :=
    by an operation that puts the config entry in place with rename(2), the
    variant in which the kernel dropped it again is a candidate too. *)
 Definition by_rename (o : opkind) : bool :=
-  match o with ORename | OLink | OK8s => true | _ => false end.
+  match o with ORename | OLink | OK8s | OTRename => true | _ => false end.
 
 Definition with_move_self (cfg : path) (o : opkind) (before : lstate) (r : lstate * N) : list (lstate * N) :=
   let '(n, w) := r in
